@@ -4,29 +4,10 @@ import json, os
 VERIF = os.path.dirname(os.path.dirname(os.path.abspath(__file__)))
 props = [json.loads(l) for l in open(os.path.join(VERIF, 'properties.jsonl'))]
 
-CLAIMED = {
-    'C20': dict(
-        text='Lean 4 theorems over the SQL type table and lookup loop regenerated from relational_db.py on every run: the whole '
-             'R2RML 10.2 table and every listed DBMS catalogue name decided completely (decide +kernel), parameter lists of any '
-             'length by an inductive proof, inference frame conditions; correspondence of model and real lookup on generated names; '
-             'end-to-end runs on SQLite with stubbed catalogue answers.',
-        note='Trusted: Lean kernel; translator tools/extract.py (table by AST + constants, loop by shape); str.upper and re look-arounds '
-             'modelled for ASCII; catalogue queries of non-SQLite DBMSs are not executed (answers stubbed).',
-        technique='Lean 4 proof (decide +kernel over the regenerated table, induction for parameter lists) + translator + differential correspondence',
-        design='5 (C20)'),
-}
-CLAIMED['C05'] = dict(
-    text='Lean 4 theorems for every Unicode string: the literal escape chain regenerated from materializer.py satisfies a decidable '
-         'side condition (decide) under which decode(escape v) = v and the body is a valid STRING_LITERAL_QUOTE (induction over the '
-         'string); percent-encoding round-trips through UTF-8 (core utf8 lemma), leaves only unreserved/safe characters unencoded and '
-         'always yields a valid IRIREF body; counter-witness theorems for the recorded defects. Correspondence of '
-         '_materialize_template / falcon / urllib with the model; strict pyoxigraph parse + decode of every emitted line.',
-    note='Trusted: Lean kernel; translator (escape chains, delimiters by AST); falcon/urllib encoders modelled and compared '
-         '(all scalar values in the thorough tier); str.isprintable is a parameter; pyoxigraph as reference parser; the grammar reading in Spec/NTerm.lean. '
-         'Open findings C05_F1, C05_F2, C05_F5 are excluded by narrow scope predicates.',
-    technique='Lean 4 proof (induction over strings, decide on the regenerated escape chain) + translator + differential correspondence + strict-parser oracle',
-    design='5 (C05)')
-
+CLAIMED = {}
+for fn in sorted(os.listdir(os.path.join(VERIF, 'tools', 'claims'))):
+    if fn.endswith('.json'):
+        CLAIMED[fn[:-5]] = json.load(open(os.path.join(VERIF, 'tools', 'claims', fn)))
 NOT_APPLICABLE_REASON = 'check not built yet in this round; see DESIGN.md section 5 for the planned Lean model'
 
 checks, na = [], []
